@@ -14,4 +14,6 @@ nv=$(echo "$out" | grep -c '^VIOLATION')
 echo "RESULT patch=$P check=$c $* exit=$rc violations=$nv secs=$((t1-t0))"
 echo "$out" | grep '^  violated:' | cut -c1-200 | head -3
 [ -n "$SHOW" ] && echo "$out" | tail -${SHOW}
+# replay files written for the changed tree are not evidence about /repo
+git -C /verif checkout -q -- evidence/replays 2>/dev/null; git -C /verif clean -fdq evidence/replays
 cd /; git -C /repo worktree remove --force "$W"
